@@ -136,3 +136,19 @@ Example C12_ext_nonvacuous :
                 val s' (0%nat, [3%Z]) = 5%Z.
 Proof. exact ext_nonvacuous. Qed.
 Print Assumptions C12_ext_nonvacuous.
+
+(* any list V of recorded inputs, any statement list as the region's semantics (calls expanded) *)
+Theorem C12_replay_sound_any : forall (V : list name) f r s1 s1' tr c s2,
+  exec f r s1 = Ok s1' tr c ->
+  (forall l, In l (exposed tr) -> In (fst l) V) ->
+  bnd s2 = bnd s1 -> agree_on V s1 s2 ->
+  exists s2', exec f r s2 = Ok s2' tr c /\ bnd s2' = bnd s1' /\
+    (forall l, In (fst l) V \/ In l (writes tr) -> val s2' l = val s1' l).
+Proof. exact replay_sound_any. Qed.
+Print Assumptions C12_replay_sound_any.
+
+(* a by-reference argument of a non-pure call (READWRITE access) is an output, and an input unless written first *)
+Theorem C12_readwrite_in_out : forall x l,
+  In (x, READWRITE) l -> (wfirst x l = false -> In x (inputs_of l)) /\ In x (outputs_of l).
+Proof. exact readwrite_in_out. Qed.
+Print Assumptions C12_readwrite_in_out.
